@@ -274,3 +274,28 @@ def corpus():
                  "body": [("assign", "s", ("choice", [(c(F(1, 2)), c(1)), (c(F(1, 2)), c(-1))])),
                           ("assign", "x", P.det(("add", v("x"), v("s"))))]}, [{"x": 2}, {"x": 1, "s": 1}], "random-walk"))
     return out
+
+
+def abstraction_corpus():
+    """programs whose branch conditions are over a draw with too many values for a finite type:
+    Polar replaces such a condition by a Bernoulli coin whose probability is a symbol; two
+    DIFFERENT conditions over the same draw are not independent and must not both be
+    abstracted.  Each entry: (program, goals, tag, abs_support)"""
+    c, v, F = P.const, P.var, Fraction
+    sup = {"d": [[f"1/30", str(i)] for i in range(1, 31)]}
+    out = []
+
+    def prog(body):
+        return {"types": [], "init": [("assign", "x", P.det(c(0))), ("assign", "y", P.det(c(0))), ("assign", "d", P.det(c(0)))],
+                "guard": ("true",), "body": [("assign", "d", ("draw", ("unif", 1, 30)))] + body}
+    inc = lambda z, k: ("assign", z, P.det(("add", v(z), c(k))))
+    le = lambda k: ("atom", v("d"), "<=", c(k))
+    out.append((prog([("if", [(le(15), [inc("x", 1)])], None), ("if", [(le(15), [inc("y", 2)])], None)]),
+                [{"x": 1, "y": 1}, {"x": 2}], "abstraction:same-condition-twice", sup))
+    out.append((prog([("if", [(le(15), [inc("x", 1)])], None), ("if", [(le(10), [inc("y", 1)])], None)]),
+                [{"x": 1, "y": 1}], "abstraction:two-conditions-one-draw", sup))
+    out.append((prog([("if", [(le(10), [inc("x", 1)]), (le(20), [inc("x", 2)])], [inc("y", 1)])]),
+                [{"x": 2}, {"x": 1, "y": 1}], "abstraction:elif-chain-one-draw", sup))
+    out.append((prog([("if", [(("atom", v("d"), ">", c(25)), [inc("x", 1), inc("y", 1)])], [inc("y", 3)])]),
+                [{"x": 1, "y": 1}, {"y": 2}], "abstraction:else", sup))
+    return out
